@@ -19,6 +19,7 @@ ENGINE_OF = {
     'C16': 'engines.e_io',
     'C05': 'engines.e_omp',
     'C14': 'engines.e_interp',
+    'C03': 'engines.e_group',
 }
 
 
